@@ -314,8 +314,18 @@ class Evaluator:
     def _has_agg(self, e):
         for n in e.walk():
             n = n[0] if isinstance(n, tuple) else n
-            if self._is_agg(n) and not self._under_window(n, e):
+            if self._is_agg(n) and not self._under_window(n, e) and not self._in_nested_query(n, e):
                 return True
+        return False
+
+    @staticmethod
+    def _in_nested_query(n, root):
+        """the aggregate belongs to a sub-query (EXISTS / scalar subquery) of the expression, not to the query being projected"""
+        p = n.parent
+        while p is not None and p is not root:
+            if isinstance(p, (exp.Select, exp.Subquery)):
+                return True
+            p = p.parent
         return False
 
     def _is_agg(self, n):
